@@ -121,6 +121,12 @@ for k, (ty, l) in SERDE_TYPES.items():
       "every natively decodable value (all native-length byte strings through the native decoder)", covers=["reloaded"], timeout=1500, mem_gb=12)
     DS_ALL.append("ds_" + k)
     DR_ALL.append("dr_" + k)
+DS_SHORT = []
+for k in ("setup", "client_reg", "server_login", "reg_resp"):
+    H("ds_short_" + k, "h_serde::ds_short_" + k,
+      "%s through a serde format whose sequences may end early (as a self-describing format does for a record lacking trailing fields): every proper prefix of an encoding is refused - no field (e.g. the fake key pair) is completed with a default" % SERDE_TYPES[k][0],
+      "every byte string of the serde length, cut at every position 0..L-1", covers=["complete ok"], timeout=1500, mem_gb=12)
+    DS_SHORT.append("ds_short_" + k)
 H("ds_keys", "h_serde::ds_keys",
   "PublicKey / PrivateKey serde Deserialize (keypair.rs): Ok <=> valid canonical non-identity key / non-zero in-range scalar, agrees with the native decoder, re-encodes to the input",
   "every 2-byte public key string and every 1-byte private key string of the model KE group", covers=["pk ok", "pk err", "sk ok", "sk err"])
@@ -271,6 +277,15 @@ G("g4_ristretto_sk_decode", "g_ristretto", "ristretto255 deserialize_sk: accepte
 G("g4_ristretto_sk_boundaries", "g_ristretto", "ristretto255 deserialize_sk on the boundary values 0, 1, l-1, l, l+1, 2^252-1, 2^252, 2^253", "8 concrete byte strings through the engine (full range statement outside reach: Montgomery reduction)", ["reached"], timeout=1800, mem_gb=16)
 G("g4_ristretto_lengths_identity", "g_ristretto", "ristretto255 keys of length != 32 refused; identity public key refused", "lengths 0..=64", ["reached"])
 G("g5_p256_sk_decode", "g_nist", "P-256 deserialize_sk: Ok <=> 0 < v < n; re-encodes to the input", "all 2^256 strings", ["ok", "err"], timeout=1800, mem_gb=16)
+G("gs_x25519_pk_serde", "g_serde", "PublicKey<Curve25519> through serde: Ok <=> the native decoder accepts; never identity / small order; re-encodes to the input", "all 2^256 strings", ["ok", "err"])
+G("gs_x25519_sk_serde", "g_serde", "PrivateKey<Curve25519> through serde: Ok <=> the native decoder accepts (clamped, non-zero)", "all 2^256 strings", ["ok", "err"])
+G("gs_ristretto_pk_identity", "g_serde", "ristretto255 identity encoding refused by KeGroup::deserialize_pk, PublicKey::deserialize and the serde path; wrong-length public keys refused", "32 zero bytes (concrete, through the engine); lengths 0..=40 except 32 symbolic", ["reached"], timeout=1800, mem_gb=16, loops=[(r"pow2k|sqn|pow|invert", 300)])
+G("gs_ristretto_sk_serde", "g_serde", "ristretto255 private keys 0 and l refused through serde, 1 accepted", "3 concrete strings through the engine", ["reached"], timeout=1800, mem_gb=16)
+G("g6_p256_oprf_elem_compact_tag", "g_nist", "RegistrationRequest<P-256>: an OPRF element with SEC1 compact tag 0x05 must not decode to a message that re-encodes differently", "generator x-coordinate with tag 5 (concrete, through the engine)", ["reached"], known_finding="F4-nist-oprf-element-compact-tag", timeout=2400, mem_gb=24, loops=[(r"sqn|pow|invert", 300)])
+G("g6_p256_oprf_elem_other_tags", "g_nist", "RegistrationRequest<P-256>: OPRF element tags 0 / 4 refused, 2 / 3 accepted and canonical", "generator x-coordinate with tags 0,2,3,4 (concrete)", ["ok", "err"], timeout=2400, mem_gb=24, loops=[(r"sqn|pow|invert", 300)])
+G("g7_x25519_dh_vectors", "g_curve25519", "Curve25519 public_key / diffie_hellman on RFC 7748 6.1 and on a peer key outside the prime-order subgroup == X25519 (independent ladder)", "3 concrete computations through the engine (symbolic scalar multiplication is outside reach)", ["rfc vector", "mixed-order peer"], timeout=2400, mem_gb=24, loops=[(r"pow2k|sqn|pow|invert", 300)])
+G("g5_p256_sk_lengths", "g_nist", "P-256 deserialize_sk refuses every length other than 32 (no zero-padded short keys: a decoded key re-encodes to its input)", "every length 0..=40 except 32; content 0x01.. with a symbolic last byte", ["reached"], timeout=1800, mem_gb=16)
+G("g5_p384_sk_lengths", "g_nist", "P-384 deserialize_sk refuses every length other than 48", "every length 0..=56 except 48; content 0x01.. with a symbolic last byte", ["reached"], timeout=1800, mem_gb=16)
 G("g6_p256_pk_unknown_tags", "g_nist", "P-256 deserialize_pk refuses every SEC1 tag outside {0,2,3,4,5}", "33-byte strings, tag and x symbolic", ["reached"], timeout=1800, mem_gb=16)
 G("g6_p256_pk_bad_tags", "g_nist", "P-256 deserialize_pk refuses tags 0, 4, 5 on a 33-byte string with a valid x", "3 tags x the generator's x", ["reached"], timeout=1800, mem_gb=16, loops=[(r"sqn|pow|invert", 300)])
 G("g6_p256_pk_tag_cases", "g_nist", "P-256 deserialize_pk with tags 0/2/3/4/5 and the generator's x: accepted => re-encodes to the input; tags 0, 4, 5 refused", "5 tags x concrete valid x", ["ok", "err"], timeout=2400, mem_gb=24, loops=[(r"sqn|pow|invert", 300)])
@@ -371,7 +386,7 @@ PROPERTIES["C06"] = dict(
     thorough=W3 + S9W + ["s8_mask_response", "s8_unmask_response"],
     assumptions=[CRYPTO_NOTE])
 PROPERTIES["C08"] = dict(
-    quick=SELF + ["s13_dummy_record", "w2_server_login_start_unregistered", "w3e_login_finish_early", "c03_server_finish_exact", "d_cred_resp"],
+    quick=SELF + ["s13_dummy_record", "w2_server_login_start_unregistered", "w3e_login_finish_early", "c03_server_finish_exact", "d_cred_resp", "ds_short_setup", "dr_setup"],
     thorough=["w2_server_login_start_unregistered_ids_ctx", "w2_server_login_start_external_key_unregistered", "w2_server_login_start_record", "w3a_login_finish_decision"] + W3,
     assumptions=["'unpredictably' and 'the client always fails on a fake response' are probabilistic statements and are not decided; decided: the fake record (fresh masking key, zero envelope, fake key), the same evaluation function and code path as for a registered user, the error mapping to InvalidLoginError, and exactness of the server's final check"])
 PROPERTIES["C09"] = dict(
@@ -382,7 +397,7 @@ PROPERTIES["C09"] = dict(
 PROPERTIES["C10"] = dict(
     quick=SELF + D_QUICK + ["g1_x25519_sk_decode", "g1_x25519_sk_lengths", "g2_x25519_pk_roundtrip", "g2_x25519_pk_no_alias", "g2_x25519_pk_no_alias_canonical",
                             "g4_ristretto_lengths_identity", "g4_ristretto_sk_decode", "g4_ristretto_sk_boundaries", "g5_p256_sk_decode", "g6_p256_pk_unknown_tags", "g6_p256_pk_bad_tags"],
-    thorough=D_ALL + ["g6_p256_pk_tag_cases"] + DS_ALL + DR_ALL,
+    thorough=D_ALL + ["g6_p256_pk_tag_cases"] + DS_ALL + DR_ALL + DS_SHORT,
     assumptions=["opaque-ke's own slicing/length logic is decided on the model suite for all 11 decoders; the real groups' byte-level decoders are decided for Curve25519 (all inputs), ristretto255 scalars, P-256 scalars and tag bytes; point decompression (off-curve x, non-canonical ristretto encodings) needs a symbolic field square root and is not decided"])
 PROPERTIES["C11"] = dict(
     quick=SELF + ["d_reg_req", "d_reg_resp", "d_reg_upload", "d_cred_req", "d_cred_resp", "d_setup", "d_client_reg", "d_client_login",
@@ -397,7 +412,7 @@ PROPERTIES["C12"] = dict(
     assumptions=["panic-freedom is decided for the harnesses listed, with CBMC's memory-safety checks and Kani's Rust panic checks on, within their input bounds; a zero-entropy RNG that makes rejection-sampling loops spin is outside the RNG contract"])
 PROPERTIES["C13"] = dict(
     quick=SELF + ["d_setup", "d_setup_xk", "d_server_registration", "d_client_reg", "d_client_login", "d_server_login", "s5_server_setup_new", "c03_server_finish_exact",
-                  "dr_setup", "dr_server_registration", "dr_client_reg", "dr_server_login", "ds_setup", "ds_server_login", "ds_client_reg"],
+                  "dr_setup", "dr_server_registration", "dr_client_reg", "dr_server_login", "ds_setup", "ds_server_login", "ds_client_reg", "ds_short_setup", "ds_short_server_login"],
     thorough=["d_all_setup", "d_all_setup_xk", "d_all_client_reg", "d_win_client_login", "d_all_server_login", "d_win_reg_upload", "dr_client_login", "ds_client_login", "ds_server_registration"] + W2[:1] + W3[:1],
     assumptions=["native byte encodings: decode(encode(x)) is structurally x and encode(decode(b)) == b for all five persisted types, and every step harness starts from deserialized bytes",
                  "serde: for every natively decodable value of the five persisted types, save+reload through the crate's Serialize/Deserialize impls (driven by the byte-verbatim positional format `flat` = bincode 1.x layout) gives a value with the same native encoding and the same serde bytes, and every serde-accepted byte string is canonical and natively valid; bincode / serde_json themselves and by-name (map) field access are not encoded"])
